@@ -68,20 +68,19 @@ func (s *SourceSplitter) Start(ckpt *snapshotpb.SourceCheckpoint) error {
 	s.ctx = ctx
 	s.cancel = cancel
 
-	var pendingShards []SourceSplitterShard
-
 	// Load the splitter state
 	var splitterState kinesispb.SplitterState
 	if err := proto.Unmarshal(ckpt.GetSplitterState(), &splitterState); err != nil {
 		return fmt.Errorf("kinesis.SourceSplitter failed to unmarshal splitter state: %w", err)
 	}
 
-	// Build a list of shards that need to be assigned
-	pendingShards = make([]SourceSplitterShard, len(splitterState.AssignedShards))
+	// Load the checkpointed shards as known but unassigned so that they are
+	// assigned again below.
+	restoredShards := make([]SourceSplitterShard, len(splitterState.AssignedShards))
 	for i, shard := range splitterState.GetAssignedShards() {
-		pendingShards[i] = newSourceSplitterShardFromProto(shard)
+		restoredShards[i] = newSourceSplitterShardFromProto(shard)
 	}
-	s.splitTracker.LoadSplits(pendingShards, splitterState.LastAssignedShardId)
+	s.splitTracker.LoadSplits(restoredShards, splitterState.LastAssignedShardId)
 
 	// Load the split states to get the cursors
 	for _, splitState := range ckpt.GetSplitStates() {
@@ -97,10 +96,10 @@ func (s *SourceSplitter) Start(ckpt *snapshotpb.SourceCheckpoint) error {
 	if err != nil {
 		return fmt.Errorf("kinesis.SourceSplitter failed to discover shards: %w", err)
 	}
-	pendingShards = append(pendingShards, s.splitTracker.AvailableSplits()...)
 
-	// Do the initial split assignment
-	s.assignShards(ctx, pendingShards)
+	// Do the initial split assignment. The restored shards are tracked as
+	// unassigned so AvailableSplits already includes each of them once.
+	s.assignShards(ctx, s.splitTracker.AvailableSplits())
 
 	// Setup background shard assignment
 	s.shardDiscoveryTicker = time.NewTicker(s.shardDiscoveryInterval)
